@@ -184,19 +184,46 @@ def _random_job(args):
     return traces
 
 
+def apalache_induction(ctx):
+    """Unbounded histories at the model level: Apalache discharges Init => IndInv and IndInv /\\ Next => IndInv' on LoggerInd.tla
+    (Logger.tla refines LoggerInd: TLC property RefinesInd).  Recorded in the evidence; a failure is a machinery error."""
+    import shutil
+    import subprocess
+    import time
+    if not shutil.which('apalache-mc'):
+        ctx.note('apalache-mc not found: inductive invariant not re-checked in this run')
+        return
+    out_dir = os.path.join(ctx.work, 'apalache')
+    res = []
+    for args in (['--init=Init', '--inv=IndInv', '--length=0'], ['--init=IndInit', '--inv=IndInv', '--length=1']):
+        t = time.time()
+        try:
+            p = subprocess.run(['apalache-mc', 'check'] + args + ['--out-dir=' + out_dir, 'LoggerInd.tla'], cwd=core.SPEC,
+                               stdout=subprocess.PIPE, stderr=subprocess.STDOUT, text=True, timeout=600)
+            ok = 'EXITCODE: OK' in p.stdout
+        except subprocess.TimeoutExpired:
+            ok = False
+        res.append({'args': args, 'ok': ok, 'wall_s': round(time.time() - t, 1)})
+        if not ok:
+            raise MachineryError('Apalache did not discharge the inductive invariant of LoggerInd (%s)' % args)
+    shutil.rmtree(out_dir, ignore_errors=True)
+    ctx.leg('apalache', inductive_invariant='LoggerInd!IndInv (implies OverrideIsTemporary for histories of any length)', obligations=res)
+
+
 def run():
     ctx = Ctx('C20')
     depth = ctx.pick(3, 4)
     invs = ['OverrideIsTemporary', 'HarmlessBeforeSetup', 'OverrideApplied', 'TypeOK']
     cfg = os.path.join(ctx.work, 'lg.cfg')
     consts = {'Levels': '{10, 30}', 'MaxOps': depth, 'Dev': '{}'}
-    core.write_cfg(cfg, spec='Spec', invariants=invs, properties=['RestoredOnExit'], constants=consts)
+    core.write_cfg(cfg, spec='Spec', invariants=invs, properties=['RestoredOnExit', 'RefinesInd'], constants=consts)
     res = core.run_tlc(ctx, 'Logger', cfg, name='Logger depth %d, 2 levels' % depth, coverage=True)
     core.require_ok(res, 'Leg A Logger')
     cov = core.coverage_counts(res['out'])
     core.write_cfg(cfg, spec='Spec', invariants=invs, properties=['RestoredOnExit'],
                    constants={'Levels': '{10, 20, 30, 50}', 'MaxOps': ctx.pick(2, 3), 'Dev': '{}'})
     core.require_ok(core.run_tlc(ctx, 'Logger', cfg, name='Logger all levels'), 'Leg A Logger (all levels)')
+    apalache_induction(ctx)
     for dev, inv in (('{"NoRestoreOnRaise"}', 'OverrideIsTemporary'), ('{"RestoreViaNameOfNone"}', 'HarmlessBeforeSetup')):
         core.write_cfg(cfg, spec='Spec', invariants=[inv], constants={'Levels': '{10, 30}', 'MaxOps': 3, 'Dev': dev})
         core.expect_violation(ctx, 'Logger', cfg, inv, 'Logger Dev=' + dev, workers=4)
